@@ -632,11 +632,22 @@ def w_huge(spec, ctx, H):
             mod = importlib.import_module("Crypto.Hash." + libname[name])
             kw = {"digest_bytes": 64 if name == "blake2b" else 32} if name.startswith("blake2") else {}
             exp = hashlib.new(name, mv).digest()
-            for path in ("new(data)", "one update()", "two update() calls around the boundary"):
+            h2 = hashlib.new(name, mv)
+            h2.update(b"tail")
+            exp_tail = h2.digest()
+            for path in ("new(data)", "one update()", "two update() calls around the boundary", "copy() beyond the boundary, then a tail"):
+                if path.startswith("copy()") and not hasattr(mod.new(**kw), "copy"):
+                    continue            # BLAKE2 objects have no copy()
+
                 def run_():
                     if path == "new(data)":
                         return mod.new(data=mv, **kw).digest()
                     h = mod.new(**kw)
+                    if path.startswith("copy()"):
+                        h.update(mv)
+                        c = h.copy()
+                        c.update(b"tail")
+                        return c.digest() if c.digest() == exp_tail else b"clone: " + c.digest()
                     if path == "one update()":
                         h.update(mv)
                     else:
@@ -647,6 +658,12 @@ def w_huge(spec, ctx, H):
                 ctx.case((name, "huge", n.bit_length(), path))
                 ctx.count("huge:" + name)
                 ctx.count("huge_cases")
+                if path.startswith("copy()"):
+                    ctx.count("huge_copies")
+                    ctx.check(o == ("ok", exp_tail), name + ":wrong-output:copy-of-huge-state",
+                              "the clone of an object that has absorbed more than 2^%d bytes does not continue like the original" % (n.bit_length() - 1),
+                              lambda: {"algo": name, "msg_len": n, "got": repr(o[1])[:200], "expected": exp_tail.hex()})
+                    continue
                 ctx.check(o == ("ok", exp), name + ":wrong-output:huge-single-call",
                           "the digest of a message of more than 2^%d bytes differs from the standard's (hashlib)" % (n.bit_length() - 1),
                           lambda: {"algo": name, "message": "zeros with bytes 1, 2, 3 at offsets 0, n/2, n-1", "msg_len": n, "path": path,
